@@ -156,6 +156,17 @@ func (mediaType *MediaType) Validate(ctx context.Context, opts ...ValidationOpti
 		}
 	}
 
+	encodings := make([]string, 0, len(mediaType.Encoding))
+	for name := range mediaType.Encoding {
+		encodings = append(encodings, name)
+	}
+	sort.Strings(encodings)
+	for _, k := range encodings {
+		if err := mediaType.Encoding[k].Validate(ctx); err != nil {
+			return fmt.Errorf("encoding %s: %w", k, err)
+		}
+	}
+
 	return validateExtensions(ctx, mediaType.Extensions)
 }
 
